@@ -410,6 +410,11 @@ def jobs(tier: str, seed: int) -> list[dict]:
         cover=['done', 'raise-refused'])
     add('F7S/n2/cap', 3, code='F7S', n=2, depth=6, script='brrrr', fixed={'0': 1000, '1': 1000},
         cover=['done', 'raise-refused'])
+    # the cap counts every bet/raise, also an all-in raise for less than a full raise (4 players, symbolic short stack)
+    add('FT/n4/cap/short-all-in', 6, code='FT', n=4, depth=6, script='mmmmm', fixed={'0': 1000, '1': 1000, '2': 1000},
+        maxstack=12, cover=['done', 'raise-refused'])
+    add('F7S/n3/cap/short-all-in', 6, code='F7S', n=3, depth=7, script='bmmmmm', fixed={'0': 1000, '1': 1000},
+        maxstack=9, cover=['done'])
     # WSOP rule 96: full raise, short all-in(s), call(s), back to the raiser (who already acted)
     add('NT/n3/rule96/rrc', 7, code='NT', n=3, depth=4, script='rrc', fixed={'0': 1000, '1': 1000},
         cover=['done', 'raise-refused', 'raise-allowed'])
